@@ -1,5 +1,7 @@
 from __future__ import annotations
 
+import copy
+
 from itertools import product
 from numbers import Integral
 
@@ -22,7 +24,9 @@ from ._random_state import RandomState
 def _choice_rng(state_data, a, size, replace, p, axis, shuffle):
     from ._expr import _rng_from_bitgen
 
-    state = _rng_from_bitgen(state_data)
+    # Sample from a copy: the bit generator is a graph literal and must come
+    # out of the task unchanged, or computing twice gives different values.
+    state = _rng_from_bitgen(copy.deepcopy(state_data))
     return state.choice(a, size=size, replace=replace, p=p, axis=axis, shuffle=shuffle)
 
 
@@ -133,7 +137,8 @@ class RandomChoice(IO):
         # array (mirrors _expr.Random._info). Derive a 128-bit entropy per block
         # from the root RNG via one SeedSequence — deterministic from the root,
         # so recompute is stable — and let the worker rebuild the state.
-        root_entropy = int.from_bytes(self._state.bytes(16), "little")
+        # Draw from a copy: the derivation must not advance the operand.
+        root_entropy = int.from_bytes(copy.deepcopy(self._state).bytes(16), "little")
         words = (
             np.random.SeedSequence(root_entropy)
             .generate_state(len(self.sizes) * 4, dtype=np.uint32)
